@@ -18,13 +18,23 @@ correspondence : (a) `c15_kind`  = the name dispatch of `coarse_grid_solver` vs 
                      (`Model/ExtSpmm.lean`: COO with duplicates summed, CSC, dense, BSR -> CSR; proved to preserve the
                      dense meaning, which makes the Galerkin step of the model independent of the input format) vs
                      scipy's `.tocsr()` on the inputs this check feeds the constructors (n <= 24): exact as dense
-                     meanings (index / data arrays compared too, counted as a feature).
+                     meanings (index / data arrays compared too, counted as a feature);
+                 (f) `ext_c15_canon` (extension E41) = the canonical stored form (`Model/ExtC15Canon.lean`): `canonNZ` /
+                     `canonSD` / `isCanonical` vs scipy's `sum_duplicates()`, `eliminate_zeros()`, `has_canonical_format` on
+                     the conversions of small integer matrices given as dense / CSR / CSC / COO / BSR, canonical, with
+                     stored zeros, with split and cancelling duplicates, unsorted (array by array, exact); what the
+                     uniqueness theorems predict is checked on the real conversions (inputs with one stored pattern
+                     reach CSR as identical arrays; every stored form has the same canonical arrays); `pwRaw` / `pwStep`
+                     (one step of the pairwise constructor path: strength + kernel + T + stall test) vs
+                     `pyamg.aggregation.pairwise_aggregation(matchings=1)` on canonical and on messy arrays.
 search         : on the real constructors and `solve`:
-                 purity   -- the user's A (every format) and B / BH are bitwise unchanged by every build;
+                 purity   -- the user's A (every format; also with tiny / subnormal / explicitly stored zero entries) and B / BH
+                             are bitwise unchanged by every build (stored arrays up to the order inside a row);
                  formats  -- CSR / CSC / COO (duplicates, shuffled) / LIL / DIA / BSR / dense input give the same levels;
                  seeds    -- two builds from fresh copies with the same NumPy seed are equal field by field, bitwise;
                  reuse    -- after a random history of solve / preconditioner calls the observed call returns the
-                             bits a never-used solver returns; no level operator changed.
+                             bits a never-used solver returns; no level operator changed; every ordered pair of different
+                             smoothers that share a per-level cache.
 """
 import contextlib
 import copy
@@ -41,13 +51,19 @@ from common import enc_ints
 META = {
     'rule': 'matrices: 1-D / 2-D Poisson, anisotropic and upwind stencils, weighted graph Laplacians, random SPD, block-diagonal '
             'with isolated nodes, elasticity (BSR 2x2), n = 1..3, complex Hermitian (aggregation solvers), all scaled by a '
-            'non-dyadic factor so that summation order shows in the bits, n <= 120; constructors ruge_stuben / air / '
+            'non-dyadic factor so that summation order shows in the bits, n <= 120; in 22 % of the cases (and in a fixed grid of every '
+            'constructor x every strength option, real and complex, CSR / CSC / COO / BSR input, candidates included) the matrix also stores '
+            'weak couplings of magnitude 1e-14 ... 1e-300, subnormal values and explicit zeros; constructors ruge_stuben / air / '
             'smoothed_aggregation / rootnode / pairwise (+ adaptive_sa in the thorough tier) x strength / splitting / aggregation / '
             'interpolation / smoothing / filtering / candidates options (all randomised routines included) x 20 smoothers x 13 '
             'coarse solvers x max_levels / max_coarse; formats CSR, CSC, COO (split duplicates, shuffled), LIL, DIA, BSR(1,2,3), '
             'dense; float64 / float32 / int64 / complex128 values; histories of 0..5 calls (solve with b 1-d / column / zero, x0, '
             'cycle V/W/F/AMLI, tol, maxiter, residual lists, accel, cycles_per_level, return_info, callback; preconditioner '
-            'applications) before the observed call; non-trivial = hierarchy with >= 2 levels (build cases), non-empty history on '
+            'applications) before the observed call; every ordered pair pre != post of the smoothers that keep something on the '
+            'level or the level matrix (Schwarz with user subdomains: transposed / rotated / block / random index sets, default and '
+            'strength-based Schwarz, block Jacobi / block Gauss-Seidel with block sizes 2 and 3, Jacobi-NE, Gauss-Seidel-NE / -NR, '
+            'Chebyshev, Jacobi) on a symmetric and a nonsymmetric problem, history = the observed call itself or two other solves; '
+            'non-trivial = hierarchy with >= 2 levels (build cases), non-empty history on '
             '>= 2 levels or a caching coarse solver (reuse cases), a history with >= 2 calls (cache cases); distinct = distinct '
             '(constructor, input format, dtype, option names, history shape)',
     'search_only': ['the user\'s A and B / BH are unchanged by a build (bitwise snapshots of every array of every format); the store '
@@ -62,16 +78,34 @@ META = {
                     'never write into a level operator: observed bitwise (used versus fresh solver, operator snapshots), the '
                     'theorems take it as the shape of the model',
                     'adaptive_sa_solver (thorough tier): purity and reproducibility only',
-                    'format independence is proved for the conversions to CSR and for the Galerkin step at model level '
-                    '(convert_preserves_meaning, galerkin_format_independent; the model is run against scipy.sparse here and by the '
-                    'C04 check); that strength, splitting / aggregation, interpolation and smoothing see the dense meaning only is '
-                    'what the format search above observes'],
+                    'format independence at model level: the conversions to CSR keep the dense meaning and the Galerkin step sees '
+                    'the meaning only (convert_preserves_meaning, galerkin_format_independent); the canonical stored form is unique '
+                    '(canonical_unique: sorted duplicate-free rows + same meaning + same stored pattern => equal indptr / indices / '
+                    'data), COO / dense always, CSC without duplicates, BSR with sorted block rows convert to it '
+                    '(convert_canonical), so inputs with the same meaning and the same explicit-zero pattern reach the constructors '
+                    'as IDENTICAL arrays and the hierarchy is the same for an ARBITRARY step function '
+                    '(hierarchy_format_independent_canonical: nothing assumed about strength, splitting / aggregation, interpolation, '
+                    'smoothing); for arbitrary stored forms (unsorted, duplicates, stored zeros) E27\'s hypothesis PStepOK is '
+                    'discharged for every construction of P that reads the level matrix through sum_duplicates + eliminate_zeros '
+                    '(pstep_ok_behind_canoniser) and for the pairwise-aggregation path assembled from the C14 strength model and the '
+                    'C12 kernel model (pairwise_pstep_ok, pairwise_hierarchy_format_independent).  The models are run against '
+                    'scipy.sparse / pyamg here (ext_convert, ext_c15_canon) and by the C04 check.  NOT proved: that the real '
+                    'array-level strength / aggregation / interpolation routines are functions of the dense meaning on non-canonical '
+                    'arrays -- they are not (the pairwise kernel takes the last of several equal weights in storage order: feature '
+                    'canon_pw:stored-form-changes-P counts such inputs), which is why the format search compares against canonical '
+                    'CSR and leaves unsorted / stored-zero inputs to the purity check; LIL and DIA conversions are not modelled'],
     'partial': [],
     'assumptions': ['thresholds (strength theta, AIR theta, filter theta) are chosen off the ratios that occur in the structured test '
                     'matrices (0.27, 0.47, 0.13, 0.29, ... instead of 0.25, 0.5, 0.1, 0.3): a connection exactly at a threshold is '
                     'decided by rounding and may fall differently on the CSR and the BSR code path',
-                    '"numerical content" of the user\'s matrix = shape, dtype, format and the represented matrix (dense, bitwise); a '
-                    'pure re-ordering of the stored index arrays (in-place sort_indices) is counted as a feature, not as a violation',
+                    '"numerical content" of the user\'s matrix = shape, dtype, format, the represented matrix (dense, bitwise) and the '
+                    'stored arrays data / indices / indptr (row / col, offsets) byte for byte up to the order of the entries inside a row '
+                    '(CSR, BSR) or column (CSC): a pure re-ordering (in-place sort_indices) is counted as a feature, not as a violation',
+                    'left out of the generators until fixed or listed (reported): explicitly stored zeros x strength=\'evolution\' '
+                    '(evolution_strength_of_connection calls eliminate_zeros() on the user\'s CSR matrix); BSR-versus-CSR hierarchy '
+                    'comparison for matrices with stored entries 0 < |a| < 1e-16 (the BSR branch of classical_strength_of_connection '
+                    'drops them, the CSR branch keeps them as strong connections; the symmetric measure is all ones for BSR, scaled '
+                    'values that underflow for CSR)',
                     '"hierarchy" = A, P, R, B, BH, splitting of every level; with keep=True also AggOp / T, and the pattern of C',
                     'reuse theorems: every coarse-solver call of a solver passes the same matrix (checked per instance: the object '
                     'levels[-1].A, content unchanged)',
@@ -824,6 +858,20 @@ def classify_format(case, fmt, bs, ref_ok, got):
     return None
 
 
+def bsr_treats_tiny_differently(case):
+    """the BSR code paths of the strength measures treat stored entries far below the rounding level differently, even for
+    1 x 1 blocks: classical_strength_of_connection drops |a| < 1e-16 (absolute) in its BSR branch only (a row whose off-diagonal
+    entries are all that small, or theta = 0: strong connections for CSR input, none for BSR input);
+    symmetric_strength_of_connection returns all ones for BSR and |a| scaled by the row maximum for CSR, where such entries
+    underflow to stored zeros that later steps eliminate.  Both reported; until they are fixed or listed in KNOWN_FINDINGS.txt
+    the hierarchy comparison BSR versus CSR is left out for exactly this input class (a stored entry with 0 < |a| < 1e-16);
+    the purity of the BSR input is still checked."""
+    if not case['tags'].get('tiny'):
+        return False
+    a = np.abs(case['A'])
+    return bool(((a > 0) & (a < 1e-16)).any())
+
+
 def eval_build_case(ctx, case, fmts, pending_store):
     ctor = case['ctor']
     rng_seed = case['seed']
@@ -898,6 +946,9 @@ def eval_build_case(ctx, case, fmts, pending_store):
             continue          # the same format with another storage order: purity only
         if case.get('zmask') is not None:
             continue          # explicitly stored zeros exist in some formats only (they are entries of the graph): purity only
+        if fmt == 'bsr' and bsr_treats_tiny_differently(case):
+            ctx.feat('left_out:bsr_versus_csr_with_entries_below_1e-16')
+            continue
         store_item(b, fmt, bs)
         fk = classify_format(case, fmt, bs, ref.exc is None, b.exc)
         if fk == K_RS_BSR_ZEROS:
@@ -1533,6 +1584,187 @@ def convert_one(ctx, line, o, fmt, bs, impl, shape):
     ctx.feat('convert:layout-same' if parts[0] == impl[0] else 'convert:layout-differs:' + name)
 
 
+# ------------------------------------------------------------------------------------------------
+# extension E41: the canonical stored form (`ext_c15_canon`) against scipy's sum_duplicates / eliminate_zeros / tocsr and
+# one array-level constructor step (pairwise aggregation, one matching) against pyamg
+# ------------------------------------------------------------------------------------------------
+
+def csr_text(C, cplx=True):
+    nnz = int(C.indptr[-1])
+    return f'{C.shape[0]}:{C.shape[1]}:{sp_ints(C.indptr)}:{sp_ints(C.indices[:nnz])}:{sp_vals(C.data[:nnz], cplx=cplx)}'
+
+
+def messy_arrays(rng, D, zmask, dup=True, shuffle=True):
+    """compressed arrays over the rows of D: entries split into two stored parts (exact: small integers), cancelling pairs
+    or stored zeros at the positions of zmask, shuffled inside every row"""
+    indptr, indices, data = [0], [], []
+    for i in range(D.shape[0]):
+        ent = []
+        for j in range(D.shape[1]):
+            v = D[i, j]
+            if v != 0:
+                if dup and rng.random() < 0.4:
+                    a = float(rng.integers(-3, 4))
+                    ent += [(j, a), (j, v - a)]
+                else:
+                    ent.append((j, v))
+            elif zmask is not None and zmask[i, j]:
+                if dup and rng.random() < 0.5:
+                    a = float(rng.integers(1, 4))
+                    ent += [(j, a), (j, -a)]
+                else:
+                    ent.append((j, 0.0 * v))
+        if shuffle and ent:
+            ent = [ent[k] for k in rng.permutation(len(ent))]
+        indices += [e[0] for e in ent]
+        data += [e[1] for e in ent]
+        indptr.append(len(indices))
+    return (np.asarray(data, dtype=D.dtype), np.asarray(indices, dtype=np.int32), np.asarray(indptr, dtype=np.int32))
+
+
+def canon_inputs(rng, D, zmask):
+    """(name, group, object): group 'plain' = the stored pattern is the non-zero pattern of D, 'z' = non-zeros and zmask,
+    None = anything (unsorted, duplicates); every object represents D"""
+    out = [('dense', 'plain', D.copy())]
+    out.append(('csr', 'plain', gen.int32csr(sp.csr_array(D))))
+    out.append(('csc', 'plain', sp.csc_array(D)))
+    # COO: split entries, shuffled, no stored zero and no cancelling pair -> pattern of the non-zeros
+    dat, idx, ptr = messy_arrays(rng, D, None, dup=True)
+    keep = dat != 0
+    row = np.repeat(np.arange(D.shape[0]), np.diff(ptr))
+    p = rng.permutation(int(keep.sum()))
+    out.append(('coo', 'plain', sp.coo_array((dat[keep][p], (row[keep][p].astype(np.int32), idx[keep][p])), shape=D.shape)))
+    if zmask is not None and zmask.any():
+        out.append(('csr_zeros', 'z', sp.csr_array(messy_arrays(rng, D, zmask, dup=False, shuffle=False), shape=D.shape)))
+        dat, idx, ptr = messy_arrays(rng, D, zmask, dup=True)
+        row = np.repeat(np.arange(D.shape[0]), np.diff(ptr)).astype(np.int32)
+        p = rng.permutation(len(dat))
+        out.append(('coo_zeros', 'z', sp.coo_array((dat[p], (row[p], idx[p])), shape=D.shape)))
+        out.append(('csc_zeros', 'z', sp.csc_array(messy_arrays(rng, D.T.copy(), zmask.T, dup=False, shuffle=True),
+                                                   shape=D.shape)))
+    out.append(('csr_messy', None, sp.csr_array(messy_arrays(rng, D, zmask), shape=D.shape)))
+    out.append(('csc_messy', None, sp.csc_array(messy_arrays(rng, D.T.copy(), None if zmask is None else zmask.T), shape=D.shape)))
+    for b in (1, 2, 3):
+        if D.shape[0] % b == 0 and D.shape[1] % b == 0:
+            out.append((f'bsr{b}', None, sp.bsr_array(sp.csr_array(D), blocksize=(b, b))))
+    return out
+
+
+def part_canon(ctx, rng, count, q):
+    for t in range(count):
+        n = int(rng.integers(1, 8))
+        m = n if rng.random() < 0.6 else int(rng.integers(1, 8))
+        D = (rng.integers(-4, 5, size=(n, m)) * (rng.random((n, m)) < 0.5)).astype(float)
+        if rng.random() < 0.25:
+            D = D + 1j * (rng.integers(-2, 3, size=(n, m)) * (rng.random((n, m)) < 0.3))
+        zmask = ((rng.random((n, m)) < 0.25) & (D == 0)) if rng.random() < 0.7 else None
+        group = {}
+        for name, grp, X in canon_inputs(rng, D, zmask):
+            C0 = sp.csr_array(X) if isinstance(X, np.ndarray) else X.tocsr().copy()
+            conv = csr_text(C0)
+            fresh = sp.csr_array((C0.data.copy(), C0.indices.copy(), C0.indptr.copy()), shape=C0.shape)
+            canonical = '1' if fresh.has_canonical_format else '0'
+            nozero = '1' if not (C0.data[:int(C0.indptr[-1])] == 0).any() else '0'
+            C1 = sp.csr_array((C0.data.copy(), C0.indices.copy(), C0.indptr.copy()), shape=C0.shape)
+            C1.sum_duplicates()
+            sd = csr_text(C1)
+            C1.eliminate_zeros()
+            nz = csr_text(C1)
+            same = bool((C1.toarray() == D).all())
+            group.setdefault('nz', []).append((name, nz))
+            if grp is not None:
+                group.setdefault(grp, []).append((name, conv))
+            impl = ';'.join([nz, sd, canonical, nozero, conv])
+            rep = None if same else {'kind': 'canon', 'summary': f'{name} {D.shape}',
+                                     'packed': pack({'format': name, 'D': D, 'csr': (C0.data, C0.indices, C0.indptr, tuple(C0.shape))})}
+            q.add('ext_c15_canon nz ' + sp_token(X),
+                  lambda line, o, name=name, impl=impl, rep=rep, shape=D.shape: canon_one(ctx, line, o, name, impl, rep, shape))
+        # what the uniqueness theorems predict about the real conversions: one array triple per group
+        for grp, members in group.items():
+            texts = {tx for _, tx in members}
+            ctx.feat(f'canon:group:{grp}')
+            if len(texts) > 1:
+                ctx.corr('ext_c15_canon arrays-unique', {'group': grp, 'D': pack(D), 'members': [nm for nm, _ in members]},
+                         'identical arrays', sorted(texts)[:2])
+                # the property: the conversions keep the represented matrix (judged in canon_one), nothing more is claimed
+
+
+def canon_one(ctx, line, o, name, impl, rep, shape):
+    ctx.case(key=_key('canon', name, shape), nontrivial=shape[0] >= 2)
+    ctx.feat('canon:' + name)
+    if o != impl:
+        ctx.corr('ext_c15_canon nz', {'line': line[:600], 'format': name}, o[:600], impl[:600])
+        if rep is not None:
+            ctx.violation(f'scipy sum_duplicates / eliminate_zeros after the conversion of a {name} input changed the represented '
+                          f'matrix', rep)
+
+
+def canon_pw_formats_agree(ctx, D, theta, norm):
+    """the property behind the pairwise step: the same P for the formats whose conversion is canonical"""
+    ref = real_pairwise_step(gen.int32csr(sp.csr_array(D)), theta, norm)
+    for fmt in ('csc', 'coo', 'dense'):
+        X = make_input(D, fmt, shuffle_seed=7)
+        got = real_pairwise_step(gen.int32csr(sp.csr_array(X)), theta, norm)
+        if got != ref:
+            ctx.violation(f'pairwise aggregation step: P from {fmt} input differs from P from canonical CSR input',
+                          {'kind': 'canon_pw', 'summary': f'{fmt} n={D.shape[0]} theta={theta} norm={norm}',
+                           'packed': pack({'D': D, 'theta': theta, 'norm': norm, 'format': fmt})})
+            return False
+    return True
+
+
+def real_pairwise_step(A, theta, norm):
+    """what pairwise._extend_hierarchy computes for the level matrix A (one matching): the text of P, 'none' when it stalls"""
+    from pyamg.aggregation.aggregate import pairwise_aggregation
+    with warnings.catch_warnings():
+        warnings.simplefilter('ignore')
+        P = pairwise_aggregation(A, matchings=1, theta=theta, norm=norm, compute_P=True)[0]
+    if P.shape[1] >= P.shape[0]:
+        return 'none'
+    return csr_text(sp.csr_array(P), cplx=False)
+
+
+def part_canon_pw(ctx, rng, count, q):
+    tiny = _fr(float(np.finfo(np.float64).tiny))
+    for t in range(count):
+        n = int(rng.integers(1, 10))
+        off = -(rng.integers(0, 5, size=(n, n)) * (rng.random((n, n)) < 0.45)).astype(float)
+        if rng.random() < 0.3:
+            off = off + (rng.integers(0, 3, size=(n, n)) * (rng.random((n, n)) < 0.15))      # a few positive couplings
+        if rng.random() < 0.6:
+            off = np.minimum(off, off.T)
+        np.fill_diagonal(off, 0.0)
+        dg = rng.integers(1, 9, size=n).astype(float)
+        if rng.random() < 0.2:
+            dg[int(rng.integers(0, n))] = 0.0                                                # a missing diagonal entry
+        D = off + np.diag(dg)
+        theta = float(pick(rng, [0.0, 0.25, 0.25, 0.5, 1.0]))
+        norm = str(pick(rng, ['min', 'min', 'abs']))
+        zmask = (rng.random((n, n)) < 0.2) & (D == 0)
+        A_can = gen.int32csr(sp.csr_array(D))
+        A_messy = sp.csr_array(messy_arrays(rng, D, zmask), shape=D.shape)
+        for label, A in (('canonical', A_can), ('messy', A_messy)):
+            Ac = A.copy()
+            Ac.sum_duplicates()
+            Ac.eliminate_zeros()
+            impl = real_pairwise_step(A.copy(), theta, norm) + ';' + real_pairwise_step(Ac, theta, norm)
+            line = f'ext_c15_canon pw {norm} {_fr(theta)} {tiny} ' + csr_text(A, cplx=False)
+            q.add(line, lambda line, o, label=label, impl=impl, D=D, theta=theta, norm=norm:
+                  canon_pw_one(ctx, line, o, label, impl, D, theta, norm))
+
+
+def canon_pw_one(ctx, line, o, label, impl, D, theta, norm):
+    n = D.shape[0]
+    ctx.case(key=_key('canon_pw', label, norm, theta, n), nontrivial=n >= 2)
+    ctx.feat('canon_pw:' + label)
+    ctx.feat('canon_pw:stall' if impl.endswith(';none') else 'canon_pw:coarsened')
+    if label == 'messy' and impl.split(';')[0] != impl.split(';')[1]:
+        ctx.feat('canon_pw:stored-form-changes-P')       # the array-level path is not a function of the dense meaning
+    if o != impl:
+        ctx.corr('ext_c15_canon pw', {'line': line[:900], 'stored': label}, o[:400], impl[:400])
+        canon_pw_formats_agree(ctx, D, theta, norm)
+
+
 def part_kind(ctx, q):
     names = [nm for nm in ALL_NAMES if nm and ' ' not in nm]
     A = gen.int32csr(sp.csr_array(np.array([[2.0, -1.0], [-1.0, 2.0]])))
@@ -1840,6 +2072,9 @@ def run(ctx):
     smoother_core(ctx, q)
     tiny_core(ctx, np.random.default_rng(ctx.rng.getrandbits(31)), q)
     part_convert(ctx, np.random.default_rng(ctx.rng.getrandbits(31)), ctx.scale(40, 400), q)   # own stream: ctx.np_rng untouched
+    e41 = np.random.default_rng([int(getattr(ctx, 'round_seed', ctx.seed)) % (2 ** 32), 41])   # neither ctx.rng nor ctx.np_rng
+    part_canon(ctx, e41, ctx.scale(40, 600), q)
+    part_canon_pw(ctx, e41, ctx.scale(60, 1500), q)
     build_stream(ctx, rng, ctx.scale(200, 7000), q)
     pair_core(ctx, np.random.default_rng(ctx.rng.getrandbits(31)))
     reuse_stream(ctx, rng, ctx.scale(450, 16000))
@@ -1873,6 +2108,15 @@ def replay(ctx, data):
     elif case['kind'] == 'int64':
         for c in ('rs', 'air', 'sa', 'rn', 'pw'):
             int64_case(ctx, np.random.default_rng(0))
+    elif case['kind'] == 'canon':
+        data_, idx_, ptr_, shape_ = p['csr']
+        C1 = sp.csr_array((np.array(data_), np.array(idx_), np.array(ptr_)), shape=tuple(shape_))
+        C1.sum_duplicates()
+        C1.eliminate_zeros()
+        if not (C1.toarray() == np.asarray(p['D'])).all():
+            ctx.violation('scipy sum_duplicates / eliminate_zeros changed the represented matrix', case)
+    elif case['kind'] == 'canon_pw':
+        canon_pw_formats_agree(ctx, np.asarray(p['D']), p['theta'], p['norm'])
     elif case['kind'] == 'cache':
         from pyamg.multilevel import coarse_grid_solver
         mats = {int(k): gen.int32csr(sp.csr_array(np.array(v))) for k, v in p['mats'].items()}
